@@ -23,6 +23,9 @@ def run(chk):
             beh.append([line, "store c=0 b=1 ttl=0"])
     beh += N.config_grid_behaviours(rng, 4000 if thorough else 300)
     N.run_driver(chk, beh, "config-grid")
+    # the same behaviours with a clock that moves between the reads inside one call (20 ms tolerance in the contract)
+    jit = [[b[0] + " jitter_us=50"] + b[1:] for b in beh]
+    N.run_driver(chk, jit if thorough else jit[: max(150, len(jit) // 3)], "config-grid-moving-clock")
     N.run_driver(chk, N.model_sequences(chk, 3000 if thorough else 300), "tlc-state-cover")
     import livetests
     if thorough or False:
